@@ -4,8 +4,10 @@ package main
 // (leaves serialised by encoding/json, objects assembled here so that member order,
 // duplicates and white space can be chosen), each segment in one of the four base64
 // conventions.  Per token the harness records what the real library calls returned for
-// the decoded segments (the JSON oracle of the model) and the AST itself (for the spec
-// checker, which never sees the oracle).
+// the decoded segments (compared with the model's reference JSON reader by the op json; the
+// model falls back to it only for number literals of more than 1000 bytes) and the AST itself
+// (for the spec checker, which never sees the library's answers except to test the first-byte
+// hypothesis of C18_dispatch on them).
 
 import (
 	"bytes"
@@ -947,6 +949,41 @@ func genC18(c *Ctx) {
 			}
 			c18Emit(c, "near-not-json", 1, c18Tok{tok: tok})
 		}
+	}
+
+	// the JSON text itself mutated before it is encoded (not judged from the AST: the reference reader of
+	// the model and the library must agree on whether it still is an object, and on its members)
+	nj := 250
+	if c.Thorough() {
+		nj = 10000
+	}
+	jalpha := []byte("{}[],:\"\\ue0123456789.-+ntfalsr \n\t\x00\xff\x80/")
+	for i := 0; i < nj; i++ {
+		txt := c18StressObj(r, r.Bool()).text(r, r.Bool())
+		for k := 1 + r.Intn(3); k > 0 && len(txt) > 0; k-- {
+			pos := r.Intn(len(txt))
+			switch r.Intn(4) {
+			case 0:
+				txt = append(txt[:pos:pos], txt[pos+1:]...)
+			case 1:
+				txt = append(append(append([]byte{}, txt[:pos]...), r.Pick(jalpha)), txt[pos:]...)
+			case 2:
+				txt = append([]byte{}, txt...)
+				txt[pos] = r.Pick(jalpha)
+			default: // swap two neighbours
+				txt = append([]byte{}, txt...)
+				if pos+1 < len(txt) {
+					txt[pos], txt[pos+1] = txt[pos+1], txt[pos]
+				}
+			}
+		}
+		good := c18Seg(r, []byte(`{"alg":"none"}`), r.Intn(4), false)
+		bad := c18Seg(r, txt, r.Intn(4), false)
+		tok := c18Join(bad, good, []byte("AA"))
+		if r.Bool() {
+			tok = c18Join(good, bad, []byte("AA"))
+		}
+		c18Emit(c, "mal-json-mutated", 2, c18Tok{tok: tok})
 	}
 
 	// ---------------- malformed stream: not judged from the AST ----------------
